@@ -32,7 +32,7 @@ def _canonical_idioms(tree):
 
 
 class Func:
-    __slots__ = ('module', 'qualname', 'name', 'node', 'cls', 'roles')
+    __slots__ = ('module', 'qualname', 'name', 'node', 'cls', 'roles', '_normalized')
 
     def __init__(self, module, qualname, node, cls):
         self.module = module
@@ -188,6 +188,12 @@ class Repo:
             self.by_name[m.modname] = m
         from .roles import apply_tables
         apply_tables(self)
+        # table-driven loops are unrolled once, in place, so that a rule and its FA bundle always look at the same tree
+        from .normalize import normalize_in_place
+        for m in self.modules.values():
+            for f in m.funcs.values():
+                if not getattr(f, '_normalized', False):
+                    normalize_in_place(f)
 
     # ---- lookups ------------------------------------------------------------------
     def module(self, rel):
